@@ -2,11 +2,13 @@
 SPECIFICATION MCSpec
 CONSTANTS
   CacheMerged = TRUE
+  OwnUnion = TRUE
   MaxRewrites = 2
   MaxNodes = 2
   CPUs = {0, 1, 2}
   LimitVals = {1, 2, 99}
   Kinds = {"cpuset", "limit"}
+  Algos = {"leveled", "suppress"}
   CacheMode = "cold"
 INVARIANT V
 INVARIANT TNAtEnd
